@@ -933,5 +933,8 @@ Definition sym_chk_with (imp : file -> table -> table * res) (opp : op -> prog a
     wf_universe_b (closure_list fs) && Bool.eqb (has_collision fs) anyerr
     && (anyerr || let '(T, _) := run_ops_with imp [] (map OImport fs) in looks_ok T looks elooks)
   end.
-Definition sym_chk := sym_chk_with import op_prog.
-Definition sym_chk_fx := sym_chk_with import_fx op_prog_fx.
+(* one checker per state of the two proposed repairs (read lock in the lookups; extension pre-check) *)
+Definition sym_chk := sym_chk_with import op_prog.                      (* neither *)
+Definition sym_chk_lk := sym_chk_with import op_prog_lk.                (* locked lookups only *)
+Definition sym_chk_ext := sym_chk_with import_fx (op_prog_with import_prog_fx lookup_prog lookup_ext_prog).
+Definition sym_chk_fx := sym_chk_with import_fx op_prog_fx.             (* both *)
